@@ -326,7 +326,7 @@ def replay_path(item):
                     findings.append((f"asbuilt:{d}", f"{edge['act']} {edge['args']} -> {out}"))
                 break
             compare_state(scene, st, after_reopen=edge["act"] == "Reopen", findings=findings)
-            if edge["act"] == "CopyGroup":
+            if edge["act"] == "CopyGroup" or (edge["act"] == "CopyPurge" and out == "ok"):
                 compare_copy(scene, st, edge, findings)
             for d in _seq(edge.get("dev")):
                 findings.append((f"asbuilt:{d}", f"{edge['act']} {edge['args']} behaves as the named deviation predicts"))
